@@ -89,14 +89,19 @@ class Source:
         self.edges = None  # supplied edge_node_connectivity (list of pairs) or None
         self.prov = dict(node="", edge="none", face="none")
         self.conv = {}
+        self.dtype = {}  # kind -> dtype name of the supplied Cartesian arrays when not float64
+        self.raw_nodes = None
 
     def centroid(self, idx):
-        m = self.truth["node"][list(idx)].mean(axis=0)
-        return m
+        # corners: the true unit vectors; for node coordinates stored in a narrow dtype (whole units:
+        # no longer ONE radius) the stored vectors themselves, exactly as given, in float64
+        base = self.raw_nodes if getattr(self, "raw_nodes", None) is not None else self.truth["node"]
+        return base[list(idx)].mean(axis=0)
 
     def to_json(self):
         j = dict(tag=self.tag, faces=self.faces, edges=self.edges, prov=self.prov, conv=self.conv,
-                 truth={k: v.tolist() for k, v in self.truth.items()})
+                 truth={k: v.tolist() for k, v in self.truth.items()}, dtype=dict(self.dtype),
+                 raw_nodes=self.raw_nodes is not None)
         for k in KINDS:
             j[k + "_ll"] = None if self.ll[k] is None else [list(map(float, self.ll[k][0])), list(map(float, self.ll[k][1]))]
             j[k + "_xyz"] = None if self.xyz[k] is None else np.asarray(self.xyz[k]).tolist()
@@ -114,6 +119,12 @@ class Source:
             s.ll[k] = None if a is None else (np.array(a[0], float), np.array(a[1], float))
             b = j.get(k + "_xyz")
             s.xyz[k] = None if b is None else np.array(b, float).reshape(-1, 3)
+        s.dtype = dict(j.get("dtype") or {})
+        for k, dt in s.dtype.items():
+            if s.xyz[k] is not None:
+                s.xyz[k] = s.xyz[k].astype(dt)
+        if j.get("raw_nodes") and s.xyz["node"] is not None:
+            s.raw_nodes = s.xyz["node"].astype(np.float64)
         return s
 
 
@@ -159,6 +170,30 @@ def make_source(rng, faces, node_truth, tag, combo, node_ll=None):
         s.prov[kind] = prov + (f"(r={r:.8g})" if prov != "ll" else "")
         s.conv[kind] = "0..360" if (conv and prov != "xyz") else "±180"
     return s
+
+
+DTYPES = [("int32", 6371220.0), ("int64", 6371220.0), ("float32", 6371220.0), ("float32", 6371.22)]
+
+
+def narrow_dtype(s, dtype, radius):
+    """Store every Cartesian-ONLY supplied kind at `radius` in `dtype` (whole units for integers).  The
+    truth of that kind becomes the direction of the stored values exactly as given, in float64."""
+    done = False
+    for k in KINDS:
+        if s.xyz[k] is None or s.ll[k] is not None:
+            continue
+        v = radius * s.truth[k]
+        stored = np.rint(v).astype(dtype) if dtype.startswith("int") else v.astype(dtype)
+        s.xyz[k] = stored
+        s.truth[k] = unit(stored.astype(np.float64))
+        s.dtype[k] = dtype
+        s.prov[k] = f"xyz(r={radius:.8g},{dtype})"
+        if k == "node":
+            s.raw_nodes = stored.astype(np.float64)
+        done = True
+    if done and s.raw_nodes is not None and s.prov["face"] == "none":
+        s.truth["face"] = np.array([unit(s.centroid(f)) for f in s.faces])
+    return done
 
 
 def degenerate(s):
@@ -373,7 +408,7 @@ def judge(ctx, s, ops, variant=(1, 1, 1), impl_runner=None, inp_extra=None, sup_
     # the normalised mean of its two ends) — evaluated BY LEAN (`faceCentroid` / `edgeCentroid`, the
     # functions of centroid_row_local / centroid_orphans_irrelevant) from the true node positions
     # and the connectivity; independent of the implementation and of the node/face numbering.
-    tn = truth["node"]
+    tn = s.raw_nodes if s.raw_nodes is not None else truth["node"]
     cl = common.Tok(d.ask("C04.centres", enc_cols([tn[:, 0], tn[:, 1], tn[:, 2]]), enc_conn(s.faces, edges)))
     lean_face = np.stack([np.array(cl.floats()) for _ in range(3)], axis=1).reshape(-1, 3)
     lean_edge = np.stack([np.array(cl.floats()) for _ in range(3)], axis=1).reshape(-1, 3)
@@ -418,7 +453,8 @@ def judge(ctx, s, ops, variant=(1, 1, 1), impl_runner=None, inp_extra=None, sup_
         clauses = verdict.split(" ", 1)[1].split(",")
         for cl in clauses:
             name, kind = cl.split("/")[0], cl.split("/")[1]
-            ctx.fail(f"C04/{kind}/{name}/src={s.prov[kind].split('(')[0]}" + ("-nonunit" if "(r=" in s.prov[kind] and "(r=1)" not in s.prov[kind] else ""),
+            ctx.fail(f"C04/{kind}/{name}/src={s.prov[kind].split('(')[0]}" + ("-nonunit" if "(r=" in s.prov[kind] and "(r=1)" not in s.prov[kind] else "")
+                     + ("-" + s.dtype[kind] if kind in s.dtype else ""),
                      f"{kind} coordinates: clause {name} fails (source supplies {kind} as {s.prov[kind]}, history {inp['history']})",
                      inp, obs, mod, [cl])
         return
@@ -778,6 +814,7 @@ def run(ctx):
                 "sizes with an unused node numbered last / first) × numbering and coverage (unused nodes first / middle / last, node "
                 "ids kept / descending / shuffled, biggest face first / middle / last, one position under two ids) × element size "
                 "(lattice spacing log-uniform 1e-6..1 rad, fixed 0.01°/0.1°/0.5° at high latitude and across the antimeridian); "
+                "dtype of Cartesian-only supplied arrays (float64 | float32 | int32 | int64 at Earth radius); "
                 "construct_face_centers('cartesian average' | 'welzl') between 0-3 pre-reads and a full permutation of reads on "
                 "irregular mid-latitude faces x every provenance (re-basing rule in the harness, not in the Lean state machine) "
                 "× provenance (node: lon/lat | xyz | both; edge, face: none | lon/lat | xyz | both; radii 1, 0.5, 2, 6371229; "
@@ -787,6 +824,11 @@ def run(ctx):
                 "(SCRIP, Exodus, GEOS-CS, MPAS, UGRID) judged by the same Lean predicate against their own first Cartesian report; "
                 "corpus/C04 first; distinct = distinct (source, history)")
     ctx.assumptions = [
+        "narrow dtypes (int32/int64 whole metres, float32 at r = 6371220 and 6371.22): float clause — truth and model are computed in "
+        "float64 from the stored values exactly as given and compared at the same 1e-12 (the unchanged code promotes to float64); corner "
+        "means of such nodes use the stored vectors (whole-unit rounding leaves no common radius); int histories contain no normalize_cartesian_coordinates() "
+        "(int32 squares overflow inside _check_normalization itself); with narrow NODE arrays only the node getters are read (centres "
+        "derived from float32 corners are a float32 mean, ~4e-8: the source's own precision, not judged)",
         "construct_face_centers(): the Welzl centre itself is NOT modelled (judged: range, unit length, agreement of both representations "
         "in all later reads, inside the corner cap); 'cartesian average' re-derives from stored xyz or re-centres on the corner mean; "
         "histories with construct calls contain no normalize_cartesian_coordinates()",
@@ -882,6 +924,31 @@ def run(ctx):
             pre = rng.sample(range(6), rng.choice([0, 1, 2, 3]))
             post = rng.sample(range(6), 6)
             judge_construct(ctx, s, pre, METHODS[(rep + len(pre) + rng.randrange(2)) % 2], post)
+
+    # 2e. DTYPE of supplied Cartesian coordinates: int32 / int64 whole metres and float32 (metres,
+    #     kilometres) at Earth radius, for every Cartesian-only kind; truth = the stored values exactly
+    #     as given, in float64 (clauses stay at 1e-12: a float64 computation from the stored values)
+    by_name = {sp[0]: sp for sp in special_sources()}
+    for nm in ["triangle-west", "mixed-orphan-last", "antimeridian", "octahedron"][: ctx.n(3, 4)]:
+        name, ll, faces = by_name[nm]
+        lon = np.array([p[0] for p in ll])
+        lat = np.array([p[1] for p in ll])
+        for dtype, radius in DTYPES:
+            for rep in range(ctx.n(6, 20)):
+                combo = random_combo(rng)
+                combo = ("xyz" if rep % 3 else combo[0], combo[1], combo[2], combo[3], combo[4])
+                s = make_source(rng, faces, xyz_of(lon, lat), name, combo, node_ll=(lon, lat))
+                if not narrow_dtype(s, dtype, radius) or degenerate(s):
+                    continue
+                ops = history(rng)
+                if dtype.startswith("int"):
+                    ops = [o for o in ops if o != 6]   # int32 squares overflow inside _check_normalization itself
+                if "node" in s.dtype:
+                    # centres DERIVED from narrow node arrays are not judged: np.mean of float32 corners is
+                    # itself a float32 computation (~4e-8, the source's own precision); only the node reads
+                    ops = [o for o in ops if o in (0, 3, 6)]
+                ctx.hit(f"dtype:{dtype}@{radius:g}")
+                judge(ctx, s, ops)
 
     # 2b. sample files through the real readers (float64 sources only)
     for fmt, rel in FILES:
